@@ -119,6 +119,9 @@ func (q *PriorityQueue) Pop() (*rtp.Packet, error) {
 	q.next.val = nil
 	q.length--
 	q.next = q.next.next
+	if q.next != nil {
+		q.next.prev = nil // do not keep the popped node (and all nodes popped before it) reachable
+	}
 
 	return val, nil
 }
@@ -132,6 +135,9 @@ func (q *PriorityQueue) PopAt(sqNum uint16) (*rtp.Packet, error) {
 		val := q.next.val
 		q.next.val = nil
 		q.next = q.next.next
+		if q.next != nil {
+			q.next.prev = nil // do not keep the popped node (and all nodes popped before it) reachable
+		}
 		q.length--
 
 		return val, nil
@@ -167,6 +173,9 @@ func (q *PriorityQueue) PopAtTimestamp(timestamp uint32) (*rtp.Packet, error) {
 		val := q.next.val
 		q.next.val = nil
 		q.next = q.next.next
+		if q.next != nil {
+			q.next.prev = nil // do not keep the popped node (and all nodes popped before it) reachable
+		}
 		q.length--
 
 		return val, nil
